@@ -8,8 +8,9 @@ import (
 	"fmt"
 	"math/rand"
 	"reflect"
-	"sync"
+	"sort"
 	"strings"
+	"sync"
 	"unsafe"
 
 	"github.com/welllog/golib/algz"
@@ -135,9 +136,11 @@ func (tc *trieCase) describe(c06 bool) string {
 
 // ---- Dump: the built structure of the real trie, read through reflect + unsafe (unexported fields).
 // A node is named by its WORD: the rune values on the path from the root.  Output:
-//   DUMPTAG :: nnodes :: for every node in pre-order, children in stored order:
-//       put_list(word) ++ [isEnd, size, nchildren] ++ fail
-//   fail = -1 (nil pointer) | put_list(word of the target) (the root is the empty word: 0) | -3 (points outside the trie)
+//
+//	DUMPTAG :: nnodes :: for every node in pre-order, children in stored order:
+//	    put_list(word) ++ [isEnd, size, nchildren] ++ fail
+//	fail = -1 (nil pointer) | put_list(word of the target) (the root is the empty word: 0) | -3 (points outside the trie)
+//
 // Fails closed: a field that is missing or has another kind, a nil child pointer, a node reached twice
 // give DUMPTAG :: BADSTRUCT, which neither the model nor the judge ever produce.
 const (
@@ -153,18 +156,20 @@ type trieDumpNode struct {
 }
 
 // The layout of Trie / trieNode / childNode is found by TYPE (names are hints only, extra fields are ignored):
-//   Trie:      the field that is a node (struct) or a pointer to one — a node is a struct with a slice of structs that
-//              hold a rune and a pointer back to the node type;
-//   trieNode:  children = that slice, fail = the other pointer to the node type, isEnd = the bool field, size = the int field;
-//   childNode: val = the int32 field, node = the pointer to the node type.
+//
+//	Trie:      the field that is a node (struct) or a pointer to one — a node is a struct with a slice of structs that
+//	           hold a rune and a pointer back to the node type;
+//	trieNode:  children = that slice, fail = the other pointer to the node type, isEnd = the bool field, size = the int field;
+//	childNode: val = the int32 field, node = the pointer to the node type.
+//
 // A self test on a three-pattern trie decides whether the walk understands the layout; if not, the Dump observation is
 // dropped (InstrLost) instead of failing cases.
 type trieLayout struct {
-	ok                                          bool
-	rootIdx                                     int
-	rootIsPtr                                   bool
-	kidsIdx, failIdx, endIdx, sizeIdx           int
-	valIdx, nodeIdx                             int
+	ok                                bool
+	rootIdx                           int
+	rootIsPtr                         bool
+	kidsIdx, failIdx, endIdx, sizeIdx int
+	valIdx, nodeIdx                   int
 }
 
 var trieLay struct {
@@ -245,17 +250,40 @@ func trieLayoutGet() trieLayout {
 			t.Insert("abc")
 			t.BuildFailureLinks()
 			d := trieDumpWith(&t, l)
-			want := []int64{DUMPTAG, 5,
-				0, 0, 0, 2, -1,
-				1, 'a', 0, 1, 1, 0,
-				2, 'a', 'b', 1, 2, 1, 1, 'b',
-				3, 'a', 'b', 'c', 1, 3, 0, 0,
-				1, 'b', 1, 1, 0, 0}
-			good := len(d) == len(want)
-			for i := range want {
-				if good && d[i] != want[i] {
+			// the self test must not judge the code under test (a wrong fail link or size must show up as a difference
+			// in the Dump, not switch the Dump off): only the SHAPE is checked — the walk yields the five words
+			// "", a, ab, abc, b, each record is well formed, and isEnd is a 0/1 value
+			good := len(d) >= 2 && d[0] == DUMPTAG && d[1] == 5
+			var words []string
+			p := 2
+			for n := 0; good && n < 5; n++ {
+				if p >= len(d) || d[p] < 0 || p+1+int(d[p])+3 > len(d) {
+					good = false
+					break
+				}
+				w := ""
+				for _, r := range d[p+1 : p+1+int(d[p])] {
+					w += string(rune(r))
+				}
+				words = append(words, w)
+				p += 1 + int(d[p])
+				if d[p] != 0 && d[p] != 1 {
 					good = false
 				}
+				p += 3
+				if p >= len(d) {
+					good = false
+					break
+				}
+				if d[p] < 0 {
+					p++
+				} else {
+					p += 1 + int(d[p])
+				}
+			}
+			if good {
+				sort.Strings(words)
+				good = strings.Join(words, ",") == ",a,ab,abc,b" && p == len(d)
 			}
 			if !good {
 				l.ok = false
@@ -688,8 +716,8 @@ func rebuildBatches(r *rand.Rand, units []string) ([]string, []string) {
 			second = append(second, randWord(r, units, 1, 3))
 			continue
 		}
-		i := 1 + r.Intn(len(u)-1)           // a proper suffix start
-		j := i + 1 + r.Intn(len(u)-i)       // infix end
+		i := 1 + r.Intn(len(u)-1)     // a proper suffix start
+		j := i + 1 + r.Intn(len(u)-i) // infix end
 		w := strings.Join(u[i:j], "")
 		if r.Intn(2) == 0 {
 			w += randWord(r, units, 1, 2) // extension of the suffix/infix
